@@ -14,6 +14,7 @@ def run(ctx):
     b = ctx.build('c04', core.MODPATH + '/zzverif/c04', files)
     nconf, ncalls, shards = ('250', '12', 16) if not ctx.thorough else ('4000', '20', 32)
     ctx.children(b, shards, run='TestC04$', env={'VERIF_C04_CONFIGS': nconf, 'VERIF_C04_CALLS': ncalls}, timeout=1800)
-    # pointers into the caller's frame compared by pointee, at every stack depth, 32 goroutines at a time
-    ch = ctx.child(b, run='TestC04StackArgs$', timeout=600, env={'VERIF_C04_STACKROUNDS': '100' if not ctx.thorough else '1500'})
+    # pointers into the caller's frame compared by pointee, at every stack depth, 32 goroutines at a time, while other
+    # goroutines are born and grown all the time (released stack memory is reused at once)
+    ch = ctx.child(b, run='TestC04StackArgs$', timeout=600, env={'VERIF_C04_STACKROUNDS': '400' if not ctx.thorough else '6000'})
     ctx.absorb(ch, what='TestC04StackArgs')
